@@ -156,7 +156,7 @@ func (p *ltParser) undump(v reflect.Value) {
 var ltTexts = []string{
 	"Goodwood", "", "'19 McLaren 720s", `say "hi"`, "a & b", "<tag>", "x > y", "tab\there", "line1\nline2", "cr\rhere", "crlf\r\nend",
 	"&#34; look-alike", "&quot;", "]]>", "é ü ß", "日本語", "😀 astral", " leading and trailing ", "\n\t\tindented\t\t", "%d %s", "a,b",
-	"http://example.com/test?id=1&ext=MP4", "semi;colon", "It’s “quoted” – €5 … ™ Š", "œuvre ž Ÿ", "&amp;amp;", "'", `"`, "&", "<", "\t", "\n",
+	"http://example.com/test?id=1&ext=MP4", "semi;colon", "It’s “quoted” – €5 … ™ Š", "œuvre ž Ÿ", "Nu\u0308rburgring e\u0301 \u2126 \u212b \ufb01" /* not in any normal form: text is kept as written */, "&amp;amp;", "'", `"`, "&", "<", "\t", "\n",
 }
 
 // text XML cannot carry: control characters, U+FFFE/U+FFFF, a lone U+FFFD
